@@ -307,12 +307,30 @@ def parse_regular(out):
     res['failed_checks'] = fc
     return res
 
+def spec_unwindset(target, h, bound=18, rec_bound=9):
+    """The harness's #[kani::unwind] follows the input length (it also bounds the lexer's own recursion).  Loops of the
+    specification evaluator depend on the *pattern* (number of patterns, alternatives, class ranges, literal bytes): they get
+    their own, larger bound through CBMC's --unwindset, computed from the harness's goto binary."""
+    import glob
+    cands = glob.glob(os.path.join(target, 'kani', '*', 'debug', 'build', '*', '*', 'out', '*proofs*%s.out' % h))
+    cands = [c for c in cands if re.search(r'proofs\d+%s\.out$' % re.escape(h), c)]
+    if not cands: return None
+    f = max(cands, key=os.path.getmtime)
+    p = subprocess.run(['cbmc', '--show-loops', f], capture_output=True, text=True)
+    loops = sorted(set(m.group(1) for m in re.finditer(r'^Loop (\S+?):$', p.stdout, re.M) if '5k_lex4spec' in m.group(1)))
+    if not loops: return None
+    prefix = loops[0].split('4spec')[0] + '4spec'
+    items = ['%s:%d' % (l, bound) for l in loops] + ['%s4ends:%d' % (prefix, rec_bound), '%s5alive:%d' % (prefix, rec_bound)]
+    return ','.join(items)
+
 def _one(args):
     crate_dir, target, h, module, feats, timeout, playback, extra = args
     cmd = ['cargo', 'kani', '--target-dir', target, '--harness', '%s::%s' % (module, h), '--exact']
     if feats: cmd += ['--features', ','.join(feats)]
     if playback: cmd += ['-Z', 'concrete-playback', '--concrete-playback=print']
     cmd += list(extra)
+    us = spec_unwindset(target, h)
+    if us: cmd += ['-Z', 'unstable-options', '--cbmc-args', '--unwindset', us]
     t0 = time.time()
     try:
         p = subprocess.run(cmd, cwd=crate_dir, capture_output=True, text=True, env=_env(), timeout=timeout)
